@@ -18,6 +18,7 @@ POPPERS = {"PrefixMap::new_node"}
 CLEARERS = {"PrefixMap::clear"}
 ASSUMES = ["C15 tree shape of the pre-state (distinct link values denote distinct slots)", "pt/models.py std model"]
 LEVEL_TEXT = __doc__
+DEEPER = False     # thorough tier: more configurations and the mutant corpus, same unrolling (path count grows too fast)
 
 
 def link_free_writers(F):
